@@ -22,6 +22,8 @@ from . import world
 LENSES = {
     "C01": "c01",
     "C02": "c02",
+    "C03": "c03",
+    "C07": "c07",
 }
 
 
